@@ -1430,7 +1430,7 @@ impl Block {
             //
 
             if transaction.is_fee_transaction() {
-                cv.ft_num += 1;
+                cv.ft_num = cv.ft_num.saturating_add(1);
                 cv.ft_index = Some(index);
             } else {
                 //
@@ -1458,17 +1458,17 @@ impl Block {
             }
 
             if transaction.is_golden_ticket() {
-                cv.gt_num += 1;
+                cv.gt_num = cv.gt_num.saturating_add(1);
                 cv.gt_index = Some(index);
             }
 
             if transaction.is_staking_transaction() {
-                cv.st_num += 1;
+                cv.st_num = cv.st_num.saturating_add(1);
                 cv.st_index = Some(index);
             }
 
             if transaction.is_issuance_transaction() {
-                cv.it_num += 1;
+                cv.it_num = cv.it_num.saturating_add(1);
                 cv.it_index = Some(index);
             }
         }
